@@ -29,7 +29,11 @@ def lib_build(kind="optim", guard=True, extra_cxx="", tag=""):
     src = os.path.join(REPO, "src")
     flags = ("-D%s " % GUARD if guard else "") + extra_cxx
     key = sha(_tree_hash(src) + "|" + kind + "|" + flags)[:16]
-    if key in _memo:
+    if key in _memo and os.path.exists(os.path.join(os.path.dirname(_memo[key]), ".ok")):
+        try:
+            os.utime(os.path.join(os.path.dirname(_memo[key]), ".ok"), None)      # still in use: keep it away from the pruner of concurrent runs
+        except OSError:
+            pass
         return _memo[key]
     root = mkdirs(os.path.join(WORK, "build"))
     bdir = os.path.join(root, "%s-%s%s" % (key, kind, tag))
@@ -51,7 +55,7 @@ def lib_build(kind="optim", guard=True, extra_cxx="", tag=""):
             open(ok, "w").write("built in %.1fs\n" % (time.time() - t0))
             log("built library %s in %.1fs -> %s" % (kind, time.time() - t0, bdir))
         os.utime(ok, None)
-    _prune(root, keep=6)
+    _prune(root, keep=24)
     libdir = os.path.join(bdir, "libtfhe")
     _memo[key] = libdir
     return libdir
@@ -63,7 +67,7 @@ def _prune(root, keep):
         ds = [d for d in ds if os.path.exists(os.path.join(d, ".ok"))]
         ds.sort(key=lambda d: os.path.getmtime(os.path.join(d, ".ok")), reverse=True)
         for d in ds[keep:]:
-            if time.time() - os.path.getmtime(os.path.join(d, ".ok")) > 1800:
+            if time.time() - os.path.getmtime(os.path.join(d, ".ok")) > 4 * 3600:
                 shutil.rmtree(d, ignore_errors=True)
     except OSError:
         pass
